@@ -253,6 +253,37 @@ func includeSets() []modset {
 	}
 }
 
+// foreignGroupingErrorSets: an ill-formed statement inside a grouping that is defined in a long file
+// and used from a short one (imported module, submodule): the error is reported for a statement that
+// was copied from the other file, far behind the end of the using file.
+func foreignGroupingErrorSets() []modset {
+	pad := " description \"" + strings.Repeat("padding ", 60) + "\";"
+	var out []modset
+	for _, bad := range []struct{ name, stmt string }{
+		{"unknown-type", "leaf x { type nosuch; }"},
+		{"unknown-feature", "leaf x { if-feature nosuch; type string; }"},
+		{"unknown-prefix-in-must", "leaf x { type string; must \"nope:y = 1\"; }"},
+		{"unknown-prefix-in-when", "leaf x { type string; when \"../nope:y\"; }"},
+		{"unknown-grouping", "container x { uses nosuch; }"},
+		{"unknown-base", "leaf x { type identityref { base nosuch; } }"},
+		{"bad-default", "leaf x { type int8; default 999; }"},
+		{"unknown-leafref-prefix", "leaf x { type leafref { path \"/nope:y\"; } }"},
+	} {
+		g := " grouping g { container gc { leaf ok { type string; } " + bad.stmt + " } }"
+		out = append(out,
+			modset{Name: "foreign-grouping-error:import:" + bad.name, Expect: "error", Mods: map[string]string{
+				"a": "module a { namespace \"urn:a\"; prefix a; import b { prefix b; } container t { uses b:g; } }",
+				"b": "module b { namespace \"urn:b\"; prefix b;" + pad + g + " }"}},
+			modset{Name: "foreign-grouping-error:submodule:" + bad.name, Expect: "error", Mods: map[string]string{
+				"a": "module a { namespace \"urn:a\"; prefix a; include s; container t { uses g; } }",
+				"s": "submodule s { belongs-to a { prefix a; }" + pad + g + " }"}},
+			modset{Name: "foreign-grouping-error:augment-into-import:" + bad.name, Expect: "error", Mods: map[string]string{
+				"a": "module a { namespace \"urn:a\"; prefix a; import b { prefix b; } augment /b:bt { uses b:g; } }",
+				"b": "module b { namespace \"urn:b\"; prefix b;" + pad + " container bt { leaf z { type string; } }" + g + " }"}})
+	}
+	return out
+}
+
 // caseSets: names that differ only in the case of their letters are different names (modules,
 // features, typedefs, groupings, identities), with the caller enabling one of two such features.
 func caseSets() []modset {
@@ -439,6 +470,7 @@ func allSets(quick bool) []modset {
 	out = append(out, importSets()...)
 	out = append(out, includeSets()...)
 	out = append(out, caseSets()...)
+	out = append(out, foreignGroupingErrorSets()...)
 	out = append(out, structuralSets()...)
 	if !quick {
 		rels := []string{"typedef", "grouping", "identity", "feature"}
